@@ -19,7 +19,7 @@ def scratch_base():
 
         _SCRATCH = f"/dev/shm/jade-verif-{os.getpid():07d}"
         os.makedirs(_SCRATCH, exist_ok=True)
-        atexit.register(lambda p=_SCRATCH, pid=os.getpid(): (os.getpid() == pid) and shutil.rmtree(p, ignore_errors=True))
+        atexit.register(lambda p=_SCRATCH, pid=os.getpid(): (os.getpid() == pid) and not os.environ.get("JV_KEEP") and shutil.rmtree(p, ignore_errors=True))
     return _SCRATCH
 
 
@@ -145,7 +145,10 @@ class Driver:
         # documented recovery: no batch of this submission queued or running
         if w.slurm.active_of():
             return False  # cannot happen at quiescence (active batches have timers)
-        limit = self.max_recovery if self.max_recovery is not None else len(w.scenario.get("jobs", [])) + 3
+        limit = len(w.scenario.get("jobs", [])) + 3
+        if self.max_recovery is not None and any(f["kind"] != "squeue_fail" for f in w.faults.fired):
+            # after a crash-type fault the submission may be stuck for good: a few attempts suffice
+            limit = self.max_recovery
         if len(self.recoveries) >= limit + 3:
             return False
         alt = len(self.recoveries) % 2 == 1 and self.prof.get("recovery_show_status", True)
@@ -197,6 +200,8 @@ def execute(scenario, prof, seed, trace=None, then_generate=False, props=(), deb
             kernel.W = None
     finally:
         w.wall = _t.perf_counter() - t0
-        if not keep:
+        if not keep and not os.environ.get("JV_KEEP"):
             shutil.rmtree(root, ignore_errors=True)
+        elif os.environ.get("JV_KEEP"):
+            print("kept", root, file=sys.__stderr__)
     return w
